@@ -1,14 +1,41 @@
-// Driver for C05 (first cut: `try` mode used while building the check).
+// Driver for C05 — options documented as soundness-neutral do not change the verdict.
+//
+// Tie: the REAL taint analysis (taint.Analyze, in-process) on generated µGo programs, on the
+// repository's own multi-package testdata and on the fixed corpus, under
+//
+//	{eager, on-demand} x pkg-filters x report/coverage/log options x max-alarms
+//
+// must report the same (source site, sink site) set as the eager default — except max-alarms = k > 0,
+// where the criterion of theorem `max_alarms` (subset, at most k, non-empty when the unlimited result
+// is) is evaluated by the compiled Lean oracle on the pair of real results.  The oracle also gives the
+// verdict of the regenerated tables T1/T2 (`reads_table_complete`): false on the pinned tree (F4),
+// replayed here on the real tool (corpus program: a global read through a call argument).
 package main
 
 import (
 	"fmt"
 	"os"
 	"path/filepath"
+	"sort"
+	"strconv"
 	"strings"
+	"time"
 
+	"verif/harness/lib"
+	"verif/harness/mugo"
 	"verif/harness/optrun"
 )
+
+const f4Key = "F4-ondemand-global-read-through-call-arg"
+
+const genConfig = `options:
+  log-level: 1
+taint-tracking-problems:
+  - sources:
+      - method: "^source_?\\d*$"
+    sinks:
+      - method: "^sink_?\\d*$"
+`
 
 func loadSpec(spec string) (*optrun.Program, error) {
 	switch {
@@ -44,9 +71,246 @@ func try(spec string, kvs []string) {
 	}
 }
 
+type variant struct {
+	name string
+	o    optrun.Opts
+	k    int // max-alarms (0 = equality demanded)
+}
+
+func diff(a, b []string) string {
+	A, B := map[string]bool{}, map[string]bool{}
+	for _, x := range a {
+		A[x] = true
+	}
+	for _, x := range b {
+		B[x] = true
+	}
+	var out []string
+	for _, x := range a {
+		if !B[x] {
+			out = append(out, "only with the default configuration: "+x)
+		}
+	}
+	for _, x := range b {
+		if !A[x] {
+			out = append(out, "only with the variant: "+x)
+		}
+	}
+	sort.Strings(out)
+	return strings.Join(out, "\n")
+}
+
+func enc(l []string) string {
+	if len(l) == 0 {
+		return "-"
+	}
+	var parts []string
+	for _, x := range l {
+		parts = append(parts, strings.NewReplacer(" ", "_", ";", ",").Replace(x))
+	}
+	return strings.Join(parts, ";")
+}
+
 func main() {
 	if len(os.Args) >= 3 && os.Args[1] == "try" {
 		try(os.Args[2], os.Args[3:])
 		return
 	}
+	rep := lib.NewReport("C05")
+	rep.Rule = "case = (program, option variant) compared with the eager default run of the same loaded program; distinct = distinct (program, variant); non-trivial = the default result is non-empty. Variants: summarize-on-demand, pkg-filter regexes (matching / not matching / partial), report-summaries / report-coverage / report-paths / report-no-callee-sites (with a scratch reports-dir), coverage-filter, log-level, silence-warn, their combinations with on-demand, max-alarms k (criterion instead of equality)"
+
+	// ---- table verdict (T1/T2)
+	readsComplete := false
+	if ans, err := lib.RunOracle("oracle_c05", []byte("t2\n")); err == nil && len(ans) == 1 && strings.HasPrefix(ans[0], "t2 ") {
+		f := strings.Fields(ans[0])
+		for _, x := range f[1:] {
+			if x == "reads=1" {
+				readsComplete = true
+			}
+			if strings.HasPrefix(x, "missingReads=") {
+				m := strings.TrimPrefix(x, "missingReads=")
+				n := 0
+				if m != "-" {
+					n = len(strings.Split(m, ","))
+				}
+				rep.Extra["t2_unrecognised_read_positions"] = n
+			}
+		}
+		rep.Extra["t2_reads_table_complete"] = readsComplete
+	} else {
+		rep.Fail("t2", fmt.Sprintf("oracle_c05 gave no table verdict: %v %v", ans, err), nil, true)
+	}
+
+	work := lib.WorkDir("C05", "run")
+	rdir := filepath.Join(work, "reports")
+	q := strconv.Quote
+
+	variants := func(thorough bool) []variant {
+		od := optrun.Opts{"summarize-on-demand": "true"}
+		rp := optrun.Opts{"reports-dir": q(rdir)}
+		vs := []variant{
+			{"on-demand", od, 0},
+			{"pkg-filter=main-pkg", optrun.Opts{"pkg-filter": q("command-line-arguments")}, 0},
+			{"pkg-filter=nomatch", optrun.Opts{"pkg-filter": q("^zzz-no-such-package$")}, 0},
+			{"pkg-filter=all", optrun.Opts{"pkg-filter": q(".*")}, 0},
+			{"report-all", rp.With("report-summaries", "true").With("report-coverage", "true").With("report-paths", "true").With("report-no-callee-sites", "true"), 0},
+			{"report-paths", rp.With("report-paths", "true"), 0},
+			{"log-level=3,silence-warn", optrun.Opts{"log-level": "3", "silence-warn": "true"}, 0},
+			{"on-demand+pkg-filter=nomatch+report-coverage", od.With("pkg-filter", q("^zzz$")).With("report-coverage", "true").With("reports-dir", q(rdir)).With("coverage-filter", q(".*main.*")), 0},
+			{"max-alarms=1", optrun.Opts{"max-alarms": "1"}, 1},
+			{"max-alarms=3", optrun.Opts{"max-alarms": "3"}, 3},
+			{"max-alarms=2+on-demand", od.With("max-alarms", "2"), 2},
+		}
+		if thorough {
+			vs = append(vs,
+				variant{"report-summaries", rp.With("report-summaries", "true"), 0},
+				variant{"report-coverage", rp.With("report-coverage", "true"), 0},
+				variant{"report-no-callee-sites", rp.With("report-no-callee-sites", "true"), 0},
+				variant{"coverage-filter", rp.With("report-coverage", "true").With("coverage-filter", q("nomatch")), 0},
+				variant{"log-level=2", optrun.Opts{"log-level": "2"}, 0},
+				variant{"log-level=4", optrun.Opts{"log-level": "4"}, 0},
+				variant{"on-demand+report-all", od.With("reports-dir", q(rdir)).With("report-summaries", "true").With("report-coverage", "true").With("report-paths", "true"), 0},
+				variant{"on-demand+pkg-filter=main-pkg", od.With("pkg-filter", q("command-line-arguments")), 0},
+				variant{"pkg-filter=partial", optrun.Opts{"pkg-filter": q("foo|fmt|strings")}, 0},
+				variant{"max-alarms=2", optrun.Opts{"max-alarms": "2"}, 2},
+				variant{"max-alarms=5", optrun.Opts{"max-alarms": "5"}, 5},
+				variant{"max-alarms=1000", optrun.Opts{"max-alarms": "1000"}, 1000},
+				variant{"max-alarms=1+report-paths", rp.With("max-alarms", "1").With("report-paths", "true"), 1},
+			)
+		}
+		return vs
+	}(lib.Thorough())
+
+	var oracleIn strings.Builder
+	type pending struct{ key, prog, vname, content string }
+	pend := map[string]pending{}
+	nAlarm := 0
+
+	sweep := func(spec, name string, vs []variant, knownF4 bool) {
+		p, err := loadSpec(spec)
+		if err != nil {
+			rep.Count("load-error")
+			rep.Notes = append(rep.Notes, "load "+spec+": "+err.Error())
+			return
+		}
+		base := p.Taint(optrun.Opts{"summarize-on-demand": "false"})
+		if !base.OK() {
+			rep.Count("base-run-failed")
+			rep.Notes = append(rep.Notes, fmt.Sprintf("%s: default run failed: %v %s", spec, base.CfgErr, strings.SplitN(base.Panic, "\n", 2)[0]))
+			return
+		}
+		rep.Count("program")
+		rep.Extra["default_flows/"+name] = len(base.Flows)
+		for _, v := range vs {
+			os.RemoveAll(rdir)
+			r := p.Taint(v.o)
+			ckey := ""
+			if len(base.Flows) > 0 {
+				ckey = name + "/" + v.name
+			}
+			rep.Case(ckey)
+			rep.Count("variant/" + v.name)
+			header := fmt.Sprintf("program: %s\nvariant: %s  (options: %s)\nreplay: <driver> try %s %s\n", spec, v.name, v.o.Name(), spec, strings.ReplaceAll(v.o.Name(), ",", " "))
+			if r.CfgErr != nil {
+				rep.Fail("cfg-"+name+"-"+v.name, "configuration variant rejected: "+r.CfgErr.Error(), []byte(header), true)
+				continue
+			}
+			if r.Panic != "" {
+				rep.Fail("panic-"+name+"-"+v.name, "the analysis panics under "+v.name+" but not with the default options: "+strings.SplitN(r.Panic, "\n", 2)[0], []byte(header+r.Panic), false)
+				continue
+			}
+			if v.k > 0 {
+				id := fmt.Sprintf("a%d", nAlarm)
+				nAlarm++
+				fmt.Fprintf(&oracleIn, "alarms %s %d %s %s\n", id, v.k, enc(r.Flows), enc(base.Flows))
+				pend[id] = pending{"alarms-" + name + "-" + v.name, name, v.name,
+					header + fmt.Sprintf("k=%d\nlimited result (%d):\n  %s\nunlimited result (%d):\n  %s\n", v.k, len(r.Flows), strings.Join(r.Flows, "\n  "), len(base.Flows), strings.Join(base.Flows, "\n  "))}
+				continue
+			}
+			if d := diff(base.Flows, r.Flows); d != "" {
+				key := "neq-" + name + "-" + v.name
+				what := fmt.Sprintf("taint result of %s changes under %s: %s", name, v.name, strings.SplitN(d, "\n", 2)[0])
+				if knownF4 && strings.Contains(v.name, "on-demand") || knownF4 && strings.Contains(v.name, "pkg-filter") {
+					if readsComplete {
+						key = "F4-still-differs-although-table-complete"
+					} else {
+						key = f4Key
+					}
+				}
+				rep.Fail(key, what, []byte(header+d+"\n"), false)
+			} else if len(rep.Samples) < 6 && len(base.Flows) > 0 {
+				rep.Sample(map[string]any{"program": name, "variant": v.name, "flows": len(r.Flows)})
+			}
+		}
+	}
+
+	// ---- fixed corpus first: F4
+	f4dir := filepath.Join(lib.Root(), "corpus", "findings", "F04_ondemand_global_reader")
+	sweep("dir:"+f4dir, "corpus-F4", []variant{{"on-demand", optrun.Opts{"summarize-on-demand": "true"}, 0}}, true)
+
+	// ---- generated programs
+	nGen, cases := 2, 40
+	tds := []string{"taint/globals"}
+	if lib.Thorough() {
+		nGen, cases = 4, 80
+		tds = append(tds, "taint/closures", "taint/basic", "taint/interfaces", "taint/fields", "taint/parameters", "taint/sanitizers", "taint/validators", "taint/tuples", "taint/defers", "taint/stdlib")
+	}
+	for i := 0; i < nGen; i++ {
+		p := mugo.Generate(lib.Rand(fmt.Sprintf("c05-prog-%d", i)), mugo.Options{Cases: cases})
+		d := filepath.Join(work, fmt.Sprintf("gen%d", i))
+		os.MkdirAll(d, 0o755)
+		if err := p.Write(d); err != nil {
+			rep.Fail("gen", "cannot write generated program: "+err.Error(), nil, true)
+			continue
+		}
+		os.Remove(filepath.Join(d, "rt_gt.go"))
+		os.WriteFile(filepath.Join(d, "config.yaml"), []byte(genConfig), 0o644)
+		vs := variants
+		if i > 0 && !lib.Thorough() {
+			vs = variants[:4] // the laziness variants on every program, the rest on the first
+		}
+		t0 := time.Now()
+		sweep("dir:"+d, fmt.Sprintf("gen%d", i), vs, false)
+		rep.Extra[fmt.Sprintf("sweep_seconds/gen%d", i)] = time.Since(t0).Seconds()
+	}
+	// ---- the repository's own multi-package testdata
+	for _, t := range tds {
+		vs := variants
+		if !lib.Thorough() {
+			// one analysis of a program that imports the standard library costs tens of seconds
+			vs = []variant{variants[0], variants[2], variants[4], variants[8]}
+		}
+		t0 := time.Now()
+		sweep("testdata:"+t, t, vs, false)
+		rep.Extra["sweep_seconds/"+t] = time.Since(t0).Seconds()
+	}
+
+	// ---- max-alarms criterion, evaluated by the oracle
+	if nAlarm > 0 {
+		ans, err := lib.RunOracle("oracle_c05", []byte(oracleIn.String()))
+		if err != nil {
+			rep.Fail("oracle", "oracle_c05 failed: "+err.Error(), nil, true)
+		}
+		seen := map[string]bool{}
+		for _, l := range ans {
+			f := strings.Fields(l)
+			if len(f) >= 3 && f[0] == "alarms" {
+				seen[f[1]] = true
+				if f[2] != "ok" {
+					pd := pend[f[1]]
+					rep.Fail(pd.key, fmt.Sprintf("max-alarms criterion fails for %s under %s: %s", pd.prog, pd.vname, strings.Join(f[3:], " ")), []byte(pd.content), false)
+				}
+			}
+		}
+		for id, pd := range pend {
+			if !seen[id] {
+				rep.Fail("oracle-"+pd.key, "no oracle verdict for "+pd.key, []byte(pd.content), true)
+			}
+		}
+		rep.Extra["max_alarms_criterion_evaluations"] = nAlarm
+	}
+	if !readsComplete && rep.Known == 0 {
+		rep.Notes = append(rep.Notes, "T2 says the reads table is incomplete but the corpus program did not differ between eager and on-demand")
+	}
+	rep.Finish()
 }
